@@ -113,3 +113,20 @@ def decode_grammar(out, sr="frac"):
         any_inexact = any_inexact or inexact
     nT = max([tmap[v] for v in V if v in tmap] + [-1]) + 1
     return {"S": S, "nT": nT, "rules": rules, "inexact": any_inexact}
+
+
+PIMPORTS = "From GV.lib Require Import Semiring BigSum.\nFrom GV.model Require Import Cfg Agenda Prefix."
+
+
+class PrefixTable(LangTable):
+    """like LangTable but evaluates `prefix_lang` (prefix weights)"""
+
+    def eval(self):
+        srname = {"Qc": "QcSR", "bool": "BoolSR"}[self.sr]
+        defs = [(f"G{i}", f"Definition G{i} : grammar {srname} := {M.coq_grammar(g, self.sr)}.") for i, g in enumerate(self.gs)]
+        exprs = [f"prefix_lang G{gid} {FUEL} {X}%nat {M.coq_str(xs)}" for gid, X, xs in self.queries]
+        old = IMPORTS
+        vals = coq_eval_values(self.ctx, self.stream, PIMPORTS, defs, exprs, kind="oqc" if self.sr == "Qc" else "obool")
+        self.ctx.cov["model_out_of_fuel"] += sum(1 for v in vals if v is None)
+        self.vals = vals
+        return self
